@@ -530,68 +530,122 @@ func ruleDeleteSites(c *Ctx, r *Report) {
 		return
 	}
 	info := f.Info()
-	n := 0
-	for _, call := range CallsIn(info, f.Decl.Body, "reflect.Value.Set") {
-		if len(call.Args) != 1 || !IsCall(info, call.Args[0], "reflect.Zero") {
-			continue
-		}
-		n++
-		var del, exhausted, emptied, partial, om bool
-		for _, ft := range c.FactsAt(f, call, true) {
-			switch ft.Kind {
-			case "cond":
-				if !ft.Pos {
-					continue
+	type flags struct{ del, exhausted, emptied, partial, om bool }
+	// classify reads the facts that hold at a zeroing site of function g; `bind` maps a parameter
+	// of g to the argument expression (in retrieveNodeContainer) it was called with, or nil.
+	classify := func(g *FuncInfo, at ast.Node, bind func(types.Object) ast.Expr) flags {
+		ginfo := g.Info()
+		var fl flags
+		for _, ft := range c.FactsAt(g, at, true) {
+			if ft.Kind != "cond" || !ft.Pos {
+				continue
+			}
+			e := ast.Unparen(ft.Cond)
+			if isArgsField(ginfo, e, "delete") {
+				fl.del = true
+			}
+			s := types.ExprString(e)
+			if be, ok := e.(*ast.BinaryExpr); ok && be.Op == token.EQL {
+				if strings.Contains(s, "len(path.Elem)") {
+					fl.exhausted = true
 				}
-				e := ast.Unparen(ft.Cond)
-				if isArgsField(info, e, "delete") {
-					del = true
-				}
-				s := types.ExprString(e)
-				if be, ok := e.(*ast.BinaryExpr); ok && be.Op == token.EQL {
-					if strings.Contains(s, "len(path.Elem)") {
-						exhausted = true
+				if strings.HasSuffix(types.ExprString(be.X), ".Len()") {
+					if v, ok := ConstOf(ginfo, be.Y); ok && v == "0" {
+						fl.emptied = true
 					}
-					if strings.HasSuffix(types.ExprString(be.X), ".Len()") {
-						if v, ok := ConstOf(info, be.Y); ok && v == "0" {
-							emptied = true
-						}
-					}
-				}
-				if call2, ok := e.(*ast.CallExpr); ok {
-					fn := FullName(Callee(info, call2))
-					if fn == "reflect.Value.IsZero" {
-						emptied = true
-					}
-					if strings.HasSuffix(fn, "util.PathPartiallyMatchesPrefix") {
-						partial = true
-					}
-				}
-				if id, ok := e.(*ast.Ident); ok {
-					obj := info.ObjectOf(id)
-					ast.Inspect(f.Decl.Body, func(m ast.Node) bool {
-						if as, ok := m.(*ast.AssignStmt); ok && len(as.Lhs) == 2 && len(as.Rhs) == 1 && ObjOf(info, as.Lhs[1]) == obj {
-							if ta, ok := as.Rhs[0].(*ast.TypeAssertExpr); ok && strings.HasSuffix(typeName(info, ta.Type), "GoOrderedMap") {
-								om = true
-							}
-						}
-						return true
-					})
 				}
 			}
+			if call2, ok := e.(*ast.CallExpr); ok {
+				fn := FullName(Callee(ginfo, call2))
+				if fn == "reflect.Value.IsZero" {
+					fl.emptied = true
+				}
+				if strings.HasSuffix(fn, "util.PathPartiallyMatchesPrefix") {
+					fl.partial = true
+				}
+			}
+			if id, ok := e.(*ast.Ident); ok {
+				obj := ginfo.ObjectOf(id)
+				if bind != nil {
+					if a := bind(obj); a != nil && isArgsField(info, ast.Unparen(a), "delete") {
+						fl.del = true
+					}
+				}
+				ast.Inspect(g.Decl.Body, func(m ast.Node) bool {
+					if as, ok := m.(*ast.AssignStmt); ok && len(as.Lhs) == 2 && len(as.Rhs) == 1 && ObjOf(ginfo, as.Lhs[1]) == obj {
+						if ta, ok := as.Rhs[0].(*ast.TypeAssertExpr); ok && strings.HasSuffix(typeName(ginfo, ta.Type), "GoOrderedMap") {
+							fl.om = true
+						}
+					}
+					return true
+				})
+			}
 		}
+		return fl
+	}
+	zeroings := func(g *FuncInfo) []*ast.CallExpr {
+		var out []*ast.CallExpr
+		for _, call := range CallsIn(g.Info(), g.Decl.Body, "reflect.Value.Set") {
+			if len(call.Args) == 1 && IsCall(g.Info(), call.Args[0], "reflect.Zero") {
+				out = append(out, call)
+			}
+		}
+		return out
+	}
+	n := 0
+	report := func(fl flags, at ast.Node) {
+		n++
 		class := ""
 		switch {
-		case del && exhausted:
+		case fl.del && fl.exhausted:
 			class = "path exhausted at the field"
-		case del && emptied:
+		case fl.del && fl.emptied:
 			class = "child emptied by the delete below it"
-		case del && partial && om:
+		case fl.del && fl.partial && fl.om:
 			class = "ordered map below a compressed-out container"
 		}
-		r.Check(class != "", fmt.Sprintf("ytypes.retrieveNodeContainer:zeroing#%d", n), c.Pos(call.Pos()), class,
+		r.Check(class != "", fmt.Sprintf("ytypes.retrieveNodeContainer:zeroing#%d", n), c.Pos(at.Pos()), class,
 			"retrieveNodeContainer zeroes a field that is neither the delete target, nor a child emptied by the delete, nor an ordered map below a compressed-out container: a delete whose path merely shares a prefix with the field's path removes (only the first such) field and reports success")
 	}
+	for _, call := range zeroings(f) {
+		report(classify(f, call, nil), call)
+	}
+	// zeroing performed by a helper the function hands the field to: the helper's own guards,
+	// with its parameters bound to the arguments, are combined with the facts at the call.
+	ast.Inspect(f.Decl.Body, func(x ast.Node) bool {
+		call, ok := x.(*ast.CallExpr)
+		if !ok {
+			return true
+		}
+		h := c.funcOfCallee(Callee(info, call))
+		if h == nil || h == f || h.Pkg != f.Pkg {
+			return true
+		}
+		for _, fam := range retrieveFamily {
+			if h.Decl.Name.Name == fam {
+				return true // the recursion itself, not a helper
+			}
+		}
+		inner := zeroings(h)
+		if len(inner) == 0 {
+			return true
+		}
+		hp := paramObjs(h)
+		bind := func(o types.Object) ast.Expr {
+			for i, p := range hp {
+				if p == o && i < len(call.Args) {
+					return call.Args[i]
+				}
+			}
+			return nil
+		}
+		outer := classify(f, call, nil)
+		for _, z := range inner {
+			in := classify(h, z, bind)
+			report(flags{in.del || outer.del, in.exhausted || outer.exhausted, in.emptied || outer.emptied, in.partial || outer.partial, in.om || outer.om}, call)
+		}
+		return true
+	})
 	if n == 0 {
 		r.Bad("ytypes.retrieveNodeContainer:zeroing", c.Pos(f.Decl.Pos()), "retrieveNodeContainer no longer zeroes deleted fields")
 	}
